@@ -240,24 +240,25 @@ def main():
     def on_alarm(signum, frame):
         raise JobTimeout()
 
-    signal.signal(signal.SIGALRM, on_alarm)
+    # CPU time of this process, not wall-clock time: the limit must not depend on how loaded the machine is
+    signal.signal(signal.SIGPROF, on_alarm)
     limit = int(doc.get("job_timeout", 3))
     for job in doc["jobs"]:
         # clang-format only re-flows white space; generated graphs skip the subprocess (speed),
         # shipped functions keep the real formatter when asked to.
         utils.format_cpp = real_format if job.get("format") else (lambda code: code)
-        signal.alarm(limit)
+        signal.setitimer(signal.ITIMER_PROF, limit)
         try:
             out.append(run_job(job, mods))
         except MemoryError:
             out.append(dict(text=None, exc="Timeout", exc_msg="printing exhausted the memory limit", warn=[], dump=None))
         except JobTimeout:
             # printing one graph normally takes milliseconds; a blow-up (e.g. sharing lost) must not stall the check
-            out.append(dict(text=None, exc="Timeout", exc_msg=f"printing took more than {limit}s", warn=[], dump=None))
+            out.append(dict(text=None, exc="Timeout", exc_msg=f"printing took more than {limit}s of CPU time", warn=[], dump=None))
         except Exception as ex:  # never lose the batch
             out.append(dict(text=None, exc="worker:" + type(ex).__name__, exc_msg=str(ex)[:300], warn=[], dump=None))
         finally:
-            signal.alarm(0)
+            signal.setitimer(signal.ITIMER_PROF, 0)
     utils.format_cpp = real_format
     sys.stdout = real_stdout
     json.dump(out, sys.stdout)
